@@ -3,35 +3,79 @@ CHECK = {
     "harness": "h-c16",
     "translators": ["c16_consts"],
     "level": "proof",
-    "technique": "Lean 4 theorems over executable byte-level decoder models; translator-regenerated constants/layouts; "
-                 "mutation-sweep correspondence against the real decoders under catch_unwind and a counting allocator",
-    "rule": "every request line is one (decoder, format, byte string) case; non-trivial = the implementation returned a "
-            "decoded object or an error other than plain end-of-input; distinctness by hash of the request line "
-            "(which contains the whole byte string)",
+    "technique": "Lean 4 theorems over executable byte-level decoder models and over a type-level model of ZKIR compilation "
+                 "with unknown witnesses; translator-regenerated constants/layouts; mutation-sweep correspondence against the "
+                 "real decoders and the real compile pass under catch_unwind, a counting allocator, and (for ZKIR / automaton "
+                 "inputs) a child process with a live-memory cap and a per-case watchdog",
+    "rule": "every request line is one (decoder, format, byte string) case, one ZKIR program (irc), one off-circuit guard "
+            "evaluation (iroff) or one (degree, k) pair (vkdeg); non-trivial = the implementation returned a decoded object or "
+            "an error other than plain end-of-input; distinctness by hash of the request line (which contains the whole byte "
+            "string / program)",
     "explanation": "Total decoders in Lean (scalars, G1/G2 compressed/uncompressed incl. blst's flag dispatch, ZkStdLibArch, "
                    "VerifyingKey/MidnightVK headers and commitment lists, verifier parameters, proof element schedule, ZKIR "
                    "bincode programs and arity check) with theorems on what they accept; every case of the sweep runs the real "
                    "Rust decoder (panic or super-linear allocation = violation) and the model must predict its verdict class "
                    "and decoded structure line by line; every key that decodes is used to verify a fixed valid proof; what a checked "
                    "decoder accepts is re-encoded and tested directly (canonical bytes, on the curve, [r]P = O for compressed points); "
-                   "the bincode sweep runs in a child process so that an allocation abort is caught and attributed to its input",
+                   "the bincode sweep runs in a child process so that an allocation abort is caught and attributed to its input. "
+                   "ZKIR programs are additionally driven through EVERY consumer a verifier/deployer runs on an untrusted program: "
+                   "decode (read_relation / read), the layout pass with unknown witnesses (MidnightCircuit::new(.., Some(8)) + "
+                   "dummy_synthesize_run: what keygen, min_k, the cost model and the dummy pass of public_inputs execute), the "
+                   "off-circuit interpreter and public_inputs with a benign witness, and for programs that compile min_k, cost_model "
+                   "and setup_vk — for every operation x every operand type x {loaded, constant} operands, immediates at and beyond "
+                   "each limit (0, 1, 31, 32, 33, 64, 255, 2^16, 2^31, 2^32-1, 2^32, 2^32+1, 2^32+32, 2^32+33, 2^63, u64::MAX for "
+                   "IntoBytes / ModExp; BigUint bit lengths and Bytes lengths likewise for Load / FromBytes), variadic arities, "
+                   "names (duplicates, unknown, shadowed constants, malformed constants), all single-byte substitutions and u16/u32/u64 "
+                   "widenings of every immediate of honest bincode programs (offsets derived by differential encoding with the crate's "
+                   "writer), and textual substitutions in JSON programs. The outcome class of the layout pass (ok / unsupported / "
+                   "notfound / dup / convert / notbytes) must equal the Lean compile model's; a panic, an abort, a timeout or a peak "
+                   "above 2 GiB is a violation whose replay is the program bytes. The off-circuit guards (IrValue::into_bytes, "
+                   "IrValue::from_bytes) are compared with their Lean mirrors separately, so that a guard present on one side only "
+                   "shows up as a model/impl difference. VerifyingKey::read (public entry point, circuit with a degree parameter) and "
+                   "read_from_cs are swept for constraint systems of degree 3..9 x every k byte: a key iff 2^k (degree-1) <= 2^S "
+                   "(checked directly and against the model's extendedK). "
+                   "LENGTH FIELDS swept with huge values (2^24, 2^31, 2^32-1, 2^32, 2^40, 2^63, u64::MAX as the width allows) at their exact "
+                   "offsets, peak allocation bounded by 64*len + c0: MidnightVK arch.version (u32, offset 0), arch.nr_pow2range_cols (u8), "
+                   "max_bit_len (u8), nb_public_inputs (u32), vk.version (u8), vk.k (u8), vk.num_fixed_columns (u32) — offsets derived "
+                   "from the lengths ZkStdLibArch::write and VerifyingKey::write produce — each also +-1 around the honest value with "
+                   "verification of the honest proof when the key decodes; ZKIR bincode: Vec<Instruction> length, Vec<String> lengths "
+                   "of inputs/outputs, String lengths, type-size immediates — offsets by differential encoding; automaton serialization "
+                   "(real Automaton::deserialize through its hook): final_states / transitions lengths and every 8-byte window of the "
+                   "first 48 bytes. Permutation commitments, verifier parameters, proofs and the architecture flags have no length "
+                   "field (counts come from the constraint system / schedule). ParamsKZG (2^k points of the k word) and MidnightPK "
+                   "polynomial vectors are prover-local: exercised and reported only. "
+                   "The ZKIR correspondence is deliberately tight on error CLASSES (a changed error variant fires); it does not "
+                   "compare error messages, BigUint widths or values, so re-associations and renamings inside the gadgets do not fire.",
     "trusted_base": [
         "blst (sqrt, on-curve and subgroup tests) is modelled by Nat arithmetic mod p and a double-and-add [r]P computation; "
         "agreement is checked on every point of the sweep, the group law itself belongs to C11",
         "bincode 2.0.1 and serde_json are third-party: bincode's standard encoding is modelled (varints, tags, limit accounting), "
         "serde_json is only exercised",
+        "the ZKIR constant parser (zkir/src/utils/constants.rs) is not modelled: the harness classifies every input name with the real "
+        "IrValue::try_from(&str) and passes the class to the compile model; the gadgets below the ZKIR operations (C04-C07, C18) are "
+        "exercised by the layout pass, not modelled here",
         "translators/c16_consts.py (python, parses the Rust sources) and the error-message to class mapping of the harness",
     ],
     "assumptions": [
         "never panics / never aborts for the Rust code is established on the swept inputs (all truncations, all 256 values of "
-        "every header and length byte, seeded flips/splices/appends), not by proof",
+        "every header and length byte, seeded flips/splices/appends, the structured ZKIR program family above), not by proof",
         "the whole-vector hand-over of advice columns to the secp256k1/BLS12-381 foreign chips uses the column count of the "
         "matching max(..) entry of nb_advice_cols (both are the same generic functions of the circuits crate)",
+        "consumers without an error type (MidnightCircuit::from_relation, min_k, cost_model, setup_vk unwrap the layout pass) are only "
+        "required to succeed on programs the layout pass accepts: a deployer must run the total pass first",
+        "known findings (findings/C16.json, status known): IntoBytes(n) with n >= 2^32 (u32-truncated guard: panic) and huge n on a BigUint "
+        "(memory ~ n), Load(Bytes(n)) / Load(BigUint(b)) with sizes no circuit can hold (memory ~ n: abort / capacity overflow), "
+        "Automaton::deserialize pre-allocating from an unchecked length (hook-only reachability); the theorem "
+        "compile_never_panics_partial carries the corresponding hypothesis (immediates < 2^32)",
     ],
     "level_text": "Kernel-checked Lean theorems about executable models of the byte decoders (canonical encodings only, valid "
-                  "points only, commitment counts = constraint system, column slices in range for every architecture, memory "
-                  "linear in input length), with the models checked against the real decoders on a dense mutation sweep on every run",
-    "level_note": "Totality of the Rust code itself is by correspondence (catch_unwind + counting allocator over the sweep); "
-                  "blst, bincode and serde_json are modelled or exercised, not verified",
+                  "points only, commitment counts = constraint system, accepted k = extended domain exists for every degree, column "
+                  "slices in range for every architecture, memory linear in input length) and of ZKIR compilation with unknown "
+                  "witnesses (total, compositional, never the panic outcome for 32-bit immediates, IntoBytes/FromBytes/Load limits "
+                  "equal to the off-circuit side, names bound once), with the models checked against the real decoders and the real "
+                  "compile pass on a dense mutation / parameter sweep on every run",
+    "level_note": "Totality of the Rust code itself is by correspondence (catch_unwind + counting allocator + child process with memory "
+                  "cap and watchdog over the sweep); blst, bincode, serde_json and the ZKIR constant parser are modelled or exercised, "
+                  "not verified; five size-parameter defects of the pinned tree are reported as known findings",
     "timeout": {"quick": 900, "thorough": 3000, "search": 600},
 }
